@@ -59,6 +59,12 @@ def pair_case(draw):
         tgt['ops'] = tgt['ops'] + [{'op': 'translate', 'shift': [draw(st.sampled_from([0.0, 0.37, -3.3, 17.9, 120.7])),
                                                                draw(st.sampled_from([0.0, -0.41, 5.2, -23.6, 250.3])),
                                                                draw(st.sampled_from([0.0, 0.0, 0.13, -0.7, 2.9, -11.3, 40.1]))]}]
+        if kind == 'rect' and draw(st.integers(0, 2)) == 0:
+            # a copy moved by (nearly) one column width, or one row depth: every column's nearest source column is its
+            # neighbour, although a column of its own name lies only a little further away
+            b = src['base']
+            f = draw(st.sampled_from([0.9, 1.0, 1.1, -0.9]))
+            tgt['ops'][-1]['shift'][:2] = [f * b['dx'][0], 0.0] if draw(st.booleans()) else [0.0, f * b['dy'][0]]
     elif mode == 'surfaces':
         tgt['surfaces'] = draw(geo.surfaces())
     elif mode == 'rect_pair':
@@ -92,7 +98,7 @@ def pair_case(draw):
     elif prior == 'rotate': prior = ['rotate', draw(st.sampled_from([90.0, 33.0, -120.0]))]
     return {'k': 'pair', 'mode': mode, 'src': src, 'tgt': tgt, 'nvar': draw(st.integers(1, 8)),
             'explicit': draw(st.sampled_from([False, False, True])), 'prior': prior,
-            'incon_order': draw(st.sampled_from(['geometry', 'geometry', 'reversed', 'rotated']))}
+            'incon_order': draw(st.sampled_from(['geometry', 'geometry', 'reversed', 'rotated'])), 'again': draw(st.integers(0, 2)) == 0}
 
 
 @st.composite
@@ -391,6 +397,24 @@ def run_pair(case, R):
             exp = [float(v) for v in inc[src.block_name(src.layerlist[0].name, sc)].variable]
             if not R.check(got == exp, 'incon:atmosphere-by-column', 'atmosphere block %r: %r expected the state over source column %r: %r' % (
                     name, got, sc, exp)): break
+    # the defaulted atmosphere states of a result belong to that result: altering them in place and transferring again (into
+    # a new set, from the untouched source) gives the default states again.  (States copied from source blocks are left
+    # alone: the library's copies share their lists with the source, and the statement does not say otherwise.)
+    if case.get('again') and not R.findings and sa == 2 and tatm:
+        R.label('incon:defaulted-atmosphere-edited-in-place-then-transferred-again')
+        first = incon_snapshot(new)
+        for n in tatm:
+            if n not in have: continue
+            v = new[n].variable
+            for k in range(len(v)): v[k] = -777.0 - k
+        again = t2incons.t2incon()
+        with R.lib('incon.transfer_from-again'):
+            if explicit: again.transfer_from(inc, src, tgt, dict(use_map), dict(colmapping))
+            else: again.transfer_from(inc, src, tgt)
+        second = incon_snapshot(again)
+        if second != first:
+            R.fail('incon:second-transfer-differs', 'after the first result was edited in place, a second transfer from the same source gives other states')
+        R.check(incon_snapshot(inc) == before, 'incon:source-altered', 'the source initial conditions changed when the result was edited / transferred again')
 
 
 # ---------------------------------------------------------------------- model cases
